@@ -356,7 +356,7 @@ class C14(vlib.Spec):
         "no_use_after_close", "resource_access_safe",
         "dir_never_returns", "delete_at_last_release", "delete_at_last_release_partial", "last_release_commits", "last_release_deletes",
         "no_resurrection", "acquire_after_delete_fails", "incRef_after_delete",
-        "incRef_fail_no_count", "decRef_always_releases", "all_released_rc_zero", "unreferenced_reclaimable",
+        "incRef_fail_no_count", "decRef_always_releases", "all_released_rc_zero", "unreferenced_reclaimable", "no_leak",
         "selectLoop_no_leak", "segmentsLoop_no_leak",
         "idle_reopen_transparent", "closeIfIdle_steps_keep", "inv_reachable_multi",
         "legacy_use_after_close", "legacySteal_reach", "legacy_segments_leak", "demoDeleted_reachable"]] + [
